@@ -478,7 +478,7 @@ func c08Kill(c *evid.Ctx, seed int64) {
 }
 
 func runC08(c *evid.Ctx) {
-	c.Rule("(a) sequential lock-step of Set/Get/SetUint64/GetUint64 (keys: standard, binary, 32768-byte, oversize, empty; values: nil, empty, 1B, 8B, 64KiB) interleaved with every log op template of C05 and clean reopens, comparing the stable model and the log bounds after every step, on simfs and on real BoltDB; (b) concurrent per-key register histories on real BoltDB while a writer appends/rotates/truncates, checked by porcupine partitioned by key, race detector on; (c) child processes on real fs + BoltDB doing Set and StoreLogs, SIGKILLed at random acknowledgement counts, three lifetimes per directory: every acknowledged Set must be readable after reopen; non-trivial = distinct (stable op, key/value class, preceding log op kind) contexts",
+	c.Rule("(a) sequential lock-step of Set/Get/SetUint64/GetUint64 (keys: standard, binary, 32768-byte, oversize, empty; values: nil, empty, 1B, 8B, 64KiB) interleaved with every log op template of C05 and clean reopens, comparing the stable model and the log bounds after every step, on simfs and on real BoltDB; (b) concurrent per-key register histories on real BoltDB while a writer appends/rotates/truncates, checked by porcupine partitioned by key, race detector on; (c) child processes on real fs + BoltDB doing Set and StoreLogs, SIGKILLed at random acknowledgement counts, three lifetimes per directory: every acknowledged Set must be readable after reopen; (d) under strace, no operation is acknowledged while writes to wal-meta.db are not followed by fdatasync (rule R7 of the C07 trace monitor); non-trivial = distinct (stable op, key/value class, preceding log op kind) contexts",
 		"stable_ops", "op_contexts")
 	c.Assume("BoltDB key limits: empty and >32768-byte keys are errors that change nothing", "SIGKILL leaves the OS page cache intact (process-death model, not power loss)")
 	nSeq, nConc, nKill := 200, 6, 3
@@ -510,6 +510,19 @@ func runC08(c *evid.Ctx) {
 	}
 	close(jobs)
 	wg.Wait()
+	// (d) durability of acknowledged Sets on the real stack: the syscall-trace rule R7 of
+	// the C07 monitor (no acknowledgement while writes to wal-meta.db are not followed by
+	// fdatasync), evaluated here for the stable store
+	if _, err := exec.LookPath("strace"); err == nil {
+		before := c.Get("acked_operations_checked")
+		for i := 0; i < 2; i++ {
+			c07Scenario(c, c.Seed*31337+int64(i), nil, 40, ":R7:")
+		}
+		c.Count("stable_ops", c.Get("acked_operations_checked")-before)
+		c.Distinct("op_contexts", "strace-R7")
+	} else {
+		c.Inconclusive("strace not available: durability of acknowledged Sets against power loss not observed")
+	}
 	c.Sample(map[string]any{"kind": "sequential", "note": "30-70 steps mixing Set/Get classes, C05 log templates and reopens"})
 	c.Sample(map[string]any{"kind": "kill", "note": "child loops Set(k_i,v_i)+StoreLogs on real bolt, parent SIGKILLs after n acks, reopens, compares"})
 }
